@@ -42,7 +42,7 @@ ScaleCases ==
   { [shape |-> sh, n |-> Limits.stack + d] : sh \in {"nested-parens", "right-assoc-or", "unary-chain"}, d \in {-2, -1, 0, 1, 2} }
   \cup { [shape |-> "nested-def", n |-> Limits.block + d] : d \in {-1, 0, 1, 2} }
   \cup { [shape |-> sh, n |-> Limits.locals + d] : sh \in {"many-vars", "many-vars-read", "many-vars-in-block"}, d \in {-2, -1, 0, 1} }
-  \cup { [shape |-> sh, n |-> k] : sh \in {"long-and", "long-or"}, k \in {65530, 65534, 65535, 65536, 65540} }
+  \cup { [shape |-> sh, n |-> k] : sh \in {"long-and", "long-or"}, k \in {65530, 65534, 65535, 65536, 65537, 65538, 65540, 65600, 70000, 131074} }
   \cup { [shape |-> "repeat", n |-> k] : k \in {-1, -1000000, 0, 1048576} }
   \cup { [shape |-> sh, n |-> 0] : sh \in {"div-int-zero", "div-float-zero", "float-div-zero", "minint-neg", "int-overflow", "huge-float", "cmp-nan", "many-binds", "long-ident", "long-string"} }
 VARIABLES bs, phase, sc
@@ -56,9 +56,19 @@ Damage == /\ Scope = "damage" /\ phase = 1 /\ phase' = 2 /\ UNCHANGED sc
                \/ \E b \in DamagePool : bs' = [bs EXCEPT ![i] = b]
                \/ bs' = SubSeq(bs, 1, i - 1) \o SubSeq(bs, i + 1, Len(bs))
                \/ bs' = SubSeq(bs, 1, i) \o SubSeq(bs, i, Len(bs))
-PickScale == Scope = "scale" /\ phase = 0 /\ \E c \in ScaleCases : sc' = c /\ phase' = 1 /\ UNCHANGED bs
+\* programs whose operands (slot numbers, POPN counts, constant indices) cross the 1-byte varint class (240/241) and 255/256
+VarScale == { [shape |-> sh, n |-> k] : sh \in {"many-vars", "many-vars-read", "many-vars-in-block"}, k \in {239, 240, 241, 242, 245, 255, 256, 257, 300} }
+PickScale == /\ phase = 0 /\ phase' = 1 /\ UNCHANGED bs
+             /\ \/ Scope = "scale" /\ \E c \in ScaleCases : sc' = c
+                \/ Scope = "varscale" /\ \E c \in VarScale : sc' = c
 Next == Grow \/ PickLit \/ PickBase \/ Damage \/ PickScale
 Spec == Init /\ [][Next]_vars
+\* what the language says about the jump-distance shapes: the short-circuit jump spans 2 + 2m bytes for m = (n - 2) \div 2 added terms;
+\* beyond the 16-bit operand the program must be rejected, otherwise the skipping run prints the left operand
+JumpSpan(n) == 2 + 2 * ((n - 2) \div 2)
+ExpectOf(c) == IF c.shape \notin {"long-and", "long-or"} THEN ""
+               ELSE IF JumpSpan(c.n) > Limits.jump THEN "compile-error"
+               ELSE IF c.shape = "long-and" THEN "prints:0" ELSE "prints:1"
 Emit == (Scope = "bytes" \/ phase >= 1) =>
-        PrintT(<<"CASE", ToJson([fam |-> "total", src |-> bs, shape |-> sc.shape, n |-> sc.n, nt |-> (Len(bs) >= 2 \/ Scope = "scale")])>>)
+        PrintT(<<"CASE", ToJson([fam |-> "total", src |-> bs, shape |-> sc.shape, n |-> sc.n, expect |-> ExpectOf(sc), nt |-> (Len(bs) >= 2 \/ Scope \in {"scale", "varscale"})])>>)
 ====
